@@ -176,6 +176,20 @@ def is_nondegenerate(A, B):
     return all(len(t) <= m for t in P.values()) and all(len(t) <= n for t in Qv.values())
 
 
+def well_formed(nes, m, n):
+    """list of pairs of finite float vectors of lengths m and n (validated before anything is rendered into Coq)"""
+    try:
+        for ne in nes:
+            if len(ne) != 2:
+                return False
+            x, y = np.asarray(ne[0], dtype=float), np.asarray(ne[1], dtype=float)
+            if x.shape != (m,) or y.shape != (n,) or not (np.all(np.isfinite(x)) and np.all(np.isfinite(y))):
+                return False
+        return True
+    except Exception:
+        return False
+
+
 def rat_profile(ne):
     return [frac(v) for v in ne[0].tolist()], [frac(v) for v in ne[1].tolist()]
 
@@ -257,6 +271,10 @@ def run(ctx):
                 except Exception as e:
                     ctx.fail("raises", "support_enumeration raised %r" % (e,), dict(desc, solver="support_enumeration"), repr(e), None)
                     continue
+                if not well_formed(se, m, n):
+                    ctx.fail("malformed_output", "support_enumeration returned something that is not a list of pairs of finite vectors of lengths m, n",
+                             dict(desc, solver="support_enumeration"), repr(se)[:500], None)
+                    continue
                 ctx.case(("se",) + ident, nontrivial=nontriv, sample={"support_enumeration": desc, "impl": [[a.tolist(), b.tolist()] for a, b in se]})
                 ctx.count("se:count=%d" % min(len(se), 9))
                 for ne in se:
@@ -276,6 +294,10 @@ def run(ctx):
                     except Exception as e:     # Qhull may reject degenerate input (QhullError): recorded, not a model matter
                         ve, brps = None, None
                         ctx.count("ve:qhull_error:" + type(e).__name__)
+                    if ve is not None and not well_formed(ve, m, n):
+                        ctx.fail("malformed_output", "vertex_enumeration returned something that is not a list of pairs of finite vectors of lengths m, n",
+                                 dict(desc, solver="vertex_enumeration"), repr(ve)[:500], None)
+                        ve = None
                     if ve is not None:
                         ctx.case(("ve",) + ident, nontrivial=True)
                         for ne in ve:
@@ -304,8 +326,8 @@ def run(ctx):
                             continue
                         if not (0 <= int(res.init) < m + n) or (cap is not None and mi == 10**6 and (int(res.init) - ip) % (m + n) >= m + n):
                             ctx.fail("lh_init", "the initial pivot reported as used is not a label 0..m+n-1", dict(desc, init_pivot=ip, capping=cap), int(res.init), "0 <= init < %d" % (m + n))
-                        if not (np.all(np.isfinite(ne[0])) and np.all(np.isfinite(ne[1]))):
-                            ctx.fail("lh_not_finite", "lemke_howson returned a non-finite profile", dict(desc, init_pivot=ip, capping=cap, max_iter=mi), [ne[0].tolist(), ne[1].tolist()], None)
+                        if not well_formed([ne], m, n) or not isinstance(res.converged, (bool, np.bool_)) or int(res.num_iter) != res.num_iter:
+                            ctx.fail("malformed_output", "lemke_howson returned a malformed / non-finite profile or result record", dict(desc, init_pivot=ip, capping=cap, max_iter=mi), repr((ne, res))[:500], None)
                             continue
                         ctx.case(("lh",) + ident + (ip, mi, cap), nontrivial=nontriv,
                                  sample={"lemke_howson": dict(desc, init_pivot=ip, capping=cap), "impl": [ne[0].tolist(), ne[1].tolist()], "converged": bool(res.converged)})
@@ -379,7 +401,15 @@ def run(ctx):
             g = NormalFormGame(data)
             per = []
             for tolv in (None, 0.0, 1.0):
-                out = pure_nash_brute(g, tol=tolv)
+                try:
+                    out = pure_nash_brute(g, tol=tolv)
+                    out = [tuple(int(v) for v in a) for a in out]
+                    if any(len(a) != N or any(not 0 <= a[i] < nums[i] for i in range(N)) for a in out):
+                        raise ValueError("profile out of range")
+                except Exception as e:
+                    ctx.fail("malformed_output", "pure_nash_brute raised or returned something that is not a list of action profiles: %r" % (e,),
+                             {"payoff_profile_array": data, "tol": tolv}, repr(e), None)
+                    continue
                 tq = TOL if tolv is None else frac(tolv)
                 exp = []
                 for a in np.ndindex(*nums):
